@@ -619,7 +619,7 @@ Definition sw_decl_of (it : ritem) : SM sw_decl :=
     let type_name := sw_prefix cfg ++ renamed (aid ty) in
     mdo t <- sw_texp (agenerics ty) (atype ty);
     ret (SWAlias (sw_docs (acomments ty)) type_name (sw_is_keyword type_name) (agenerics ty) t)
-  | ItConst c => mpanic "swift.rs:268"                             (* swift.rs:267 write_const: todo!() *)
+  | ItConst c => fail (EConstUnsupported (original (cid c)))       (* swift.rs:267 write_const: Err(Unsupported) since the /repo fix of the todo!() at :268 *)
   end.
 
 (* swift.rs:782 get_codable_contents (decs always contains CODABLE, so the push never happens) *)
